@@ -1,6 +1,9 @@
 (* Proofs about the accessor model (Model/Buffer.v).  Everything here depends on the generated function
    `bounds_ok` only through the three lemmas of Proofs/BufferGuard.v. *)
-Require Import V.Base.MachineInt V.Generated.GenBounds V.Model.Buffer V.Proofs.BufferGuard.
+Require Import V.Base.MachineInt.
+Require Import V.Generated.GenBounds.
+Require Import V.Model.Buffer.
+Require Import V.Proofs.BufferGuard.
 From Coq Require Import ZifyBool.
 Open Scope Z_scope.
 
